@@ -725,6 +725,17 @@ def donor_for(g: L.G, P: Any, p: S.Prop, misfit: bool = False) -> dict:
             kind = 'BLOCK_COMMENT'
         elif kind == 'BLOCK_COMMENT':
             kind, ind = 'BLOCK_COMMENT_IND', '  '
+    if not misfit and g.p(0.2) and (kind in ('directive', 'posting', 'meta_item') or kind in D.DIRECTIVE_RULES):
+        # a donor built with from_value / from_children instead of parsed from text
+        try:
+            from vf.props import c15
+            rule = g.pick(D.DIRECTIVE_RULES) if kind == 'directive' else kind
+            cname = models.TREE_MODELS[rule].__name__
+            hows = [h for h in ('from_value', 'from_children') if hasattr(models.TREE_MODELS[rule], h)]
+            spec = c15.plan(g, cname, g.pick(hows), depth=1, indent=ind if cname in c15.INDENTED else None)
+            return {'k': 'ctor', 't': '', 'spec': spec}
+        except Exception:  # noqa: BLE001
+            pass
     d = D.make(kind, g, indent=ind)
     if p.name == 'raw_values' and d['t'][:1] in '+-':
         d['t'] = '(' + d['t'] + ')' if d['k'] == 'number_expr' else d['t']
